@@ -2,8 +2,8 @@
 from reg._common import COMMON_ASSUME
 
 ENTRY = {
-    'lean_files': ['Tables/C08.lean', 'Props/C08.lean'],
-    'lemma_files': ['Lemmas/Shift.lean', 'Lemmas/Bridge.lean', 'Lemmas/VS.lean', 'Lemmas/Elevate.lean', 'Model/Basic.lean', 'Model/Curve.lean'],
+    'lean_files': ['Tables/C08.lean', 'Props/C08.lean', 'Props/C08Triangle.lean'],
+    'lemma_files': ['Lemmas/TriDeriv.lean', 'Lemmas/Triangle.lean', 'Model/Triangle.lean', 'Lemmas/Shift.lean', 'Lemmas/Bridge.lean', 'Lemmas/VS.lean', 'Lemmas/Elevate.lean', 'Model/Basic.lean', 'Model/Curve.lean'],
     'script': 'props/c08.py',
     'rule': 'cases = (routine, number of nodes, dimension, net); elevation: scaled identity nets (all unit nets, outputs integral => '
             'bit-exact vs model), degrees 1..40, binary64 nets, end points bitwise, same-map test at dyadic parameters; reduction: '
